@@ -143,6 +143,18 @@ def generate():
     out += ("\npub struct XPeer {\n" + "\n".join(fields) + "\n}\npub struct XCloud {\n    pub peers: crate::vstd::collections::HashMap<u8, XPeer>,\n"
             "    pub update_freq: UpdateFreq,\n    pub next_peers: Time,\n}\nimpl XCloud {\n    pub fn announce_interval_slice(&mut self, now: Time) {\n"
             + sl + "\n    }\n}\n")
+    # housekeep: which peers are expired; update_peer_info / add_new_peer: how the expiry is refreshed
+    m = re.search(r"^( *)for \(&addr, data\) in &self\.peers \{.*?\n\1\}", cloud, re.M | re.S)
+    sl = need(m.group(0) if m else None, "peer expiry loop in GenericCloud::housekeep", "")
+    out += ("\nimpl XCloud {\n    pub fn expired_peers_slice(&self, now: Time) -> smallvec::ivec::IVec<u8, 8> {\n"
+            "        let mut del: smallvec::ivec::IVec<u8, 8> = smallvec::ivec::IVec::new();\n" + sl + "\n        del\n    }\n}\n")
+    refresh = re.findall(r"^\s*(?:peer\.)?timeout(?:: | = )TS::now\(\) \+ self\.config\.peer_timeout as Time[;,]", cloud, re.M)
+    if len(refresh) != 2:
+        problems.append("expected the peer expiry to be set in exactly two places (add_new_peer, update_peer_info), found %d" % len(refresh))
+    m = re.search(r"^( *)peer\.timeout = TS::now\(\) \+ self\.config\.peer_timeout as Time;", cloud, re.M)
+    sl = need(m.group(0) if m else None, "expiry refresh in GenericCloud::update_peer_info", "peer.timeout = 0;")
+    out += ("pub struct XNodeCfg {\n    pub peer_timeout: Duration,\n}\npub struct XRefresher {\n    pub config: XNodeCfg,\n}\n"
+            "impl XRefresher {\n    pub fn refresh_slice<TS: crate::util::TimeSource>(&self, peer: &mut XPeer) {\n" + sl + "\n    }\n}\n")
     # reconnect_to_peers: the back-off step
     m = re.search(r"^( *)entry\.tries \+= 1;.*?entry\.next\s*=\s*now \+ [^;]*;", cloud, re.M | re.S)
     sl = need(m.group(0) if m else None, "back-off slice in GenericCloud::reconnect_to_peers", "entry.next = now;")
